@@ -269,25 +269,7 @@ func gen(r *vh.Rand, tier string) []string {
 		}
 	}
 	out = append(out, genSized(r, tier)...)
-	// the chosencases filter (http kinds and grpc/json): the bounds count what is delivered — limit
-	// items, passes over the MATCHING entries; a filter that matches nothing ends the run, nobody blocked
-	for i, pc := range provCfgs() {
-		if !a08.IsHTTP(pc.kind) && pc.kind != "grpcjson" {
-			continue
-		}
-		for j, lp := range [][2]int{{0, 2}, {3, 0}, {5, 2}, {0, 0}} {
-			for m, mask := range []string{"0", "1", "0,2", "2", "7", "1,2"} {
-				if tier != "thorough" && (i+j+m)%2 == 1 {
-					continue
-				}
-				cancel := "-"
-				if lp[0] == 0 && lp[1] == 0 {
-					cancel = strconv.Itoa(2 + m)
-				}
-				out = append(out, fmt.Sprintf("chosen %s %d %d %d 3 1 %s %d %d %s", pc.kind, pc.preload, lp[0], lp[1], cancel, (i+m)%a08.EOFLayouts, (j+m)%a08.FsKinds, mask))
-			}
-		}
-	}
+	out = append(out, genChosen(r, tier)...)
 	// the http decoders driven directly: their own Limit / Passes counters and sentinels
 	for _, k := range a08.HTTPKinds {
 		for _, limit := range []int{0, 1, 2, 3, 5, 7} {
@@ -349,6 +331,109 @@ func gen(r *vh.Rand, tier string) []string {
 			}
 		}
 		out = append(out, fmt.Sprintf("cell %s %d %d %d %d %d %s %d %d", pc.kind, pc.preload, limit, passes, n, r.Range(1, 4), cancel, r.Intn(a08.EOFLayouts), r.Intn(a08.FsKinds)))
+	}
+	return out
+}
+
+// chosenMasks: the chosencases lists tried on a file of n entries (entry i carries tag t<i>; a mask is a
+// comma separated list of tag indexes): every non-empty subset of the tags when n <= 3 (otherwise the
+// single tags, the first two, all but the first), a tag listed twice, a tag no entry carries next to one
+// that occurs — and lists that match NO entry (one / two tags that do not occur, e.g. a misspelt tag).
+func chosenMasks(n int) []string {
+	var out []string
+	if n <= 3 {
+		for m := 1; m < 1<<n; m++ {
+			var t []string
+			for i := 0; i < n; i++ {
+				if m&(1<<i) != 0 {
+					t = append(t, strconv.Itoa(i))
+				}
+			}
+			out = append(out, strings.Join(t, ","))
+		}
+	} else {
+		var rest []string
+		for i := 0; i < n; i++ {
+			out = append(out, strconv.Itoa(i))
+			if i > 0 {
+				rest = append(rest, strconv.Itoa(i))
+			}
+		}
+		out = append(out, "0,1", strings.Join(rest, ","))
+	}
+	last := strconv.Itoa(n - 1)
+	absent := strconv.Itoa(n + 4)
+	out = append(out, last+","+last, absent+","+last, absent, absent+","+strconv.Itoa(n+9))
+	return out
+}
+
+// genChosen: the chosencases filter as a dimension of a cell (the http kinds with and without preload, grpc/json):
+// the bounds count what is delivered — limit items, passes over the MATCHING entries; with a list that matches
+// nothing there is nothing to deliver, whatever limit and passes say (also none at all): the provider ends by
+// itself, consumers are released, Run returns. Every configuration x bounds x list is enumerated (no sampling of
+// the product: a hole in it hides a whole path, e.g. full scan + passes 0 + nothing chosen), consumers alternate.
+func genChosen(r *vh.Rand, tier string) []string {
+	var out []string
+	ns := []int{1, 3}
+	if tier == "thorough" {
+		ns = []int{1, 2, 3, 5}
+	}
+	var pcs []provCfg
+	for _, pc := range provCfgs() {
+		if a08.IsHTTP(pc.kind) || pc.kind == "grpcjson" {
+			pcs = append(pcs, pc)
+		}
+	}
+	no := 0
+	for _, pc := range pcs {
+		for _, lp := range [][2]int{{0, 0}, {0, 1}, {0, 2}, {1, 0}, {3, 0}, {5, 2}, {2, 3}} {
+			for _, n := range ns {
+				for m, mask := range chosenMasks(n) {
+					cancel := "-"
+					if lp[0] == 0 && lp[1] == 0 {
+						cancel = strconv.Itoa(1 + (m+no)%(n+2))
+					}
+					out = append(out, fmt.Sprintf("chosen %s %d %d %d %d %d %s %d %d %s", pc.kind, pc.preload, lp[0], lp[1], n, 1+2*(no%2), cancel,
+						(no+m)%a08.EOFLayouts, (no/2+m)%a08.FsKinds, mask))
+					no++
+				}
+			}
+		}
+	}
+	// random cells: larger files, any subset of the tags (1 in 4: none of them), cancellation before / at / after
+	// the bound, a context that is already done, deadlines, 1-3 consumers
+	extra := 150
+	if tier == "thorough" {
+		extra = 3000
+	}
+	for i := 0; i < extra; i++ {
+		pc := pcs[r.Intn(len(pcs))]
+		n := r.Range(1, 7)
+		var t []string
+		if !r.Chance(1, 4) {
+			for j := 0; j < n; j++ {
+				if r.Chance(1, 2) {
+					t = append(t, strconv.Itoa(j))
+				}
+			}
+		}
+		if len(t) == 0 || r.Chance(1, 5) {
+			t = append(t, strconv.Itoa(n+r.Range(0, 5))) // a tag no entry carries
+		}
+		limit := r.PickInt([]int{0, 0, 1, 2, 4, 7, 10, 17})
+		passes := r.PickInt([]int{0, 0, 1, 2, 3, 4})
+		cancel := "-"
+		if (limit == 0 && passes == 0) || r.Chance(1, 4) {
+			cancel = strconv.Itoa(r.Range(0, 2*n+2))
+			if r.Chance(1, 6) {
+				cancel = "pre"
+			}
+			if r.Chance(1, 4) {
+				cancel = "d" + cancel
+			}
+		}
+		out = append(out, fmt.Sprintf("chosen %s %d %d %d %d %d %s %d %d %s", pc.kind, pc.preload, limit, passes, n, r.Range(1, 3), cancel,
+			r.Intn(a08.EOFLayouts), r.Intn(a08.FsKinds), strings.Join(t, ",")))
 	}
 	return out
 }
